@@ -24,6 +24,15 @@ def main():
                 out["sizes"] = [len(n["nis"]), len(n["rts"]), len(n["sam"])]
                 if c.get("texts"):
                     out["pkg"], out["top"] = r["pkg"], r["top"]
+                if c.get("textfacts"):
+                    from harness import textfacts
+                    from harness.common import sx
+                    f = textfacts.extract(r["pkg"], r["top"])
+                    out["tf"] = " ".join(sx(x) for x in [
+                        [[a, b] for a, b in f["brackets"]], [[a, b] for a, b in f["decl"]], [[a, [x.replace(" ", "_") for x in b]] for a, b in f["used"]],
+                        [[a, [x.replace(" ", "_") for x in b]] for a, b in f["avail"]], [list(l) for l in f["literals"]],
+                        [[a.replace("(", "[").replace(")", "]"), w, v] for a, w, v in f["fields"] if isinstance(v, int)],
+                        [list(l) for l in f["sam_lits"]], f["route_bits"], f["words"]])
             except SvError as e:
                 out["reader_error"] = str(e)
             except Exception as e:  # reader bug or unexpected shape: fail closed
